@@ -20,9 +20,13 @@ LEVEL_TEXT = ("the property quantifies over a finite table (all references in th
 LEVEL_NOTE = ("syntax is checked against the declared minimum Python only as far as ast.parse(feature_version=...) models "
               "grammar differences (e.g. the f-string '=' specifier is not seen); imports through importlib.import_module / "
               "__import__ with a literal name are treated as imports; attribute access on instances is resolved only for the results of numpy array constructors "
-              "(np.asarray(x).attr is checked against numpy.ndarray); other instance attributes are not typed. "
+              "(np.asarray(x).attr is checked against numpy.ndarray); other instance attributes are not typed, except that every "
+              "`with` item must enter an object KNOWN to have the context-manager protocol (documented context-manager function, "
+              "installed library class or package class with __enter__/__exit__) - an item the translator cannot type is a broken "
+              "obligation followed by an instrumented API walk (harness/with_probe.py). "
               "trusted: completeness of the AST walker (dynamic attribute access via computed strings is not seen), "
-              "the hand-written list of names newer than the declared minimum versions; only the INSTALLED "
+              "the hand-written list of names newer than the declared minimum versions and the hand-written list of documented "
+              "context-manager functions (open, tarfile.open, ...); only the INSTALLED "
               "numpy/scipy/h5py/Python can be inspected (they lie inside the declared range)")
 
 MODULES = ["pyrex", "pyrex.signals", "pyrex.antenna", "pyrex.askaryan", "pyrex.detector", "pyrex.earth_model",
@@ -242,6 +246,7 @@ def unresolved(run):
             bad.append({"file": r, "line": line, "expr": name,
                         "why": "is bound only inside an `if ...__available__:` block (it does not exist without the optional "
                                "dependency) but is used by `%s`, which runs without it: NameError/AttributeError at call time" % fn})
+    bad += with_protocol(run, ex, trees, ext)
     kwv = _fresh_eval(sorted(ext), [], kwcalls=sorted({(tuple(f), k) for _, _, f, k in pending_kw}))
     for rel, line, full, kw in pending_kw:
         why = kwv.get(".".join(full) + "(" + kw + "=)")
@@ -251,6 +256,66 @@ def unresolved(run):
     run.extra["keyword_arguments_checked"] = len(pending_kw)
     run.extra["unguarded_references"] = n
     run.extra["distinct_reference_expressions"] = len(seen)
+    return bad
+
+
+def with_protocol(run, ex, trees, ext):
+    """objects entered by `with` statements: library classes without the protocol are failing inputs by themselves; items the
+    translator cannot type are followed by the instrumented API walk of harness/with_probe.py"""
+    import ast
+    import tempfile
+    bad, unknown, rows = [], [], []
+    own_cm = ex.own_context_classes(trees)
+    for rel, t in sorted(trees.items()):
+        v = ex.FileRefs(rel)
+        try:
+            v.visit(t)
+        except Exception:
+            continue
+        for line, text, how, cand in ex.with_items(rel, t, v.alias, ex.names_bound_in(t), own_cm):
+            rows.append((rel, line, text, how, cand))
+    cands = {tuple(c) for _, _, _, how, c in rows if how == "library"}
+    verdict = ex.fresh_modules(sorted(ext), [], (), cands)[2] if cands else {}
+    for rel, line, text, how, cand in rows:
+        if how == "library":
+            okc, why = verdict.get(".".join(cand), [False, "not evaluated"])
+            if not okc and "has no" in why:
+                bad.append({"file": rel, "line": line, "expr": "with " + text,
+                            "why": "enters an object without the context-manager protocol in the installed library (%s): "
+                                   "TypeError at run time" % why})
+            elif not okc:
+                unknown.append((rel, line, text))
+        elif how == "unknown":
+            unknown.append((rel, line, text))
+    run.extra["with_items_checked"] = len(rows)
+    run.extra["with_items_not_typed_by_the_translator"] = len(unknown)
+    if not unknown:
+        return bad
+    with tempfile.TemporaryDirectory(prefix="c20_with_") as d:
+        p = subprocess.run([sys.executable, "-W", "ignore", os.path.join(fw.VERIF, "harness", "with_probe.py"), fw.REPO, d],
+                           capture_output=True, text=True, timeout=900)
+    rec, calls = {}, 0
+    for ln in p.stdout.splitlines():
+        if ln.startswith("@C20PROBE "):
+            out = json.loads(ln[len("@C20PROBE "):])
+            rec, calls = out["records"], out["calls"]
+    run.extra["with_probe_calls"] = calls
+    if not calls:
+        run.notes.append("with-item probe did not run to completion: " + (p.stderr or p.stdout)[-300:])
+    for rel, line, text in unknown:
+        seen = rec.get("%s:%d" % (rel, line), {})
+        failing = {t: r for t, r in seen.items() if not r["ok"]}
+        if failing:
+            t, r = sorted(failing.items())[0]
+            bad.append({"file": rel, "line": line, "expr": "with " + text, "call": r["call"], "type": t,
+                        "why": "enters an object of type %s, which has no __enter__/__exit__ in the installed library "
+                               "(the name resolves, the context-manager PROTOCOL of its result is not part of the declared "
+                               "range): TypeError during %s" % (t, r["call"])})
+        else:
+            run.note_broken("with-item %s:%d `with %s` enters an object the translator cannot type; the instrumented API "
+                            "walk (%d calls) %s" % (rel, line, text, calls,
+                                                    "saw only types with the protocol there: %s" % sorted(seen) if seen
+                                                    else "did not reach it"))
     return bad
 
 
